@@ -1,0 +1,372 @@
+//go:build verif
+
+// Contracts of con-c05: C05 (MVCC, sequential clauses) and C06 (conditional writes: precondition semantics).
+// Notes: /verif/notes/con-c05.md; unit list: /verif/props/parts/con-c05.json.
+package store
+
+// ---------------------------------------------------------------------------------------------------------
+// C06: preconditions.go
+//
+// The index handed to Check is an interface: its results are named by the iface contracts below (valRef, err)
+// and the Check contracts are stated relative to these results through the local variables `err` / `valRef`
+// of the Check bodies (an ensures clause may mention a local: it denotes the latest binding that dominates
+// the return site).
+
+//@ iface KeyIndex.Get
+//@   ensures found: err == nil ==> valRef != nil
+//@   assigns internal
+
+//@ iface KeyIndex.GetWithFilters
+//@   ensures found: err == nil ==> valRef != nil
+//@   assigns internal
+
+// spec_vrTx names the transaction id a value reference reports: for the two implementations of the package it
+// is the definition of their Tx methods; for foreign implementations it is an uninterpreted function of the
+// reference (spec_vrTxOther is deliberately recursive: recursive spec functions stay uninterpreted).
+func spec_vrTx(v ValueRef) uint64 {
+	if r, ok := v.(*valueRef); ok {
+		return r.tx
+	}
+	if _, ok := v.(*ongoingValRef); ok {
+		return 0
+	}
+	return spec_vrTxOther(v)
+}
+
+// spec_vrKnown: the reference is one of the two implementations of the package (true for everything a Snapshot
+// hands out: valueRefFrom builds a *valueRef, the interceptor of OngoingTx.snap returns it or a new *ongoingValRef).
+func spec_vrKnown(v ValueRef) bool {
+	_, a := v.(*valueRef)
+	_, b := v.(*ongoingValRef)
+	return a || b
+}
+
+func spec_vrTxOther(v ValueRef) uint64 {
+	if v == nil {
+		return 0
+	}
+	return spec_vrTxOther(v)
+}
+
+//@ iface ValueRef.Tx
+//@   ensures def: r0 == spec_vrTx(self)
+//@   assigns nothing
+
+//@ func (*PreconditionKeyMustExist).Validate
+//@   requires st != nil
+//@   ensures empty: len(cs.Key) == 0 ==> r0 == ErrInvalidPreconditionNullKey
+//@   ensures toolong: len(cs.Key) > st.maxKeyLen ==> r0 != nil
+//@   ensures wf: r0 == nil ==> 0 < len(cs.Key) && len(cs.Key) <= st.maxKeyLen
+//@   ensures complete: 0 < len(cs.Key) && len(cs.Key) <= st.maxKeyLen ==> r0 == nil
+//@   assigns nothing
+
+//@ func (*PreconditionKeyMustNotExist).Validate
+//@   requires st != nil
+//@   ensures empty: len(cs.Key) == 0 ==> r0 == ErrInvalidPreconditionNullKey
+//@   ensures toolong: len(cs.Key) > st.maxKeyLen ==> r0 != nil
+//@   ensures wf: r0 == nil ==> 0 < len(cs.Key) && len(cs.Key) <= st.maxKeyLen
+//@   ensures complete: 0 < len(cs.Key) && len(cs.Key) <= st.maxKeyLen ==> r0 == nil
+//@   assigns nothing
+
+//@ func (*PreconditionKeyNotModifiedAfterTx).Validate
+//@   requires st != nil
+//@   ensures empty: len(cs.Key) == 0 ==> r0 == ErrInvalidPreconditionNullKey
+//@   ensures toolong: len(cs.Key) > st.maxKeyLen ==> r0 != nil
+//@   ensures zerotx: cs.TxID == 0 ==> r0 != nil
+//@   ensures wf: r0 == nil ==> 0 < len(cs.Key) && len(cs.Key) <= st.maxKeyLen && cs.TxID > 0
+//@   ensures complete: 0 < len(cs.Key) && len(cs.Key) <= st.maxKeyLen && cs.TxID > 0 ==> r0 == nil
+//@   assigns nothing
+
+// KeyMustExist: true iff idx.Get(key) (the index's own notion of a live key: found, not deleted, not expired)
+// returns no error; false iff it returns tbtree.ErrKeyNotFound (ErrExpiredEntry and the IgnoreDeleted filter
+// wrap/return ErrKeyNotFound); any other index error is handed on with false.
+//@ func (*PreconditionKeyMustExist).Check
+//@   requires idx != nil
+//@   ensures def: r1 == nil ==> (r0 == (err == nil))
+//@   ensures live: err == nil ==> r0 && r1 == nil
+//@   ensures missing: err != nil && isErr(err, tbtree.ErrKeyNotFound) ==> !r0 && r1 == nil
+//@   ensures failed: err != nil && !isErr(err, tbtree.ErrKeyNotFound) ==> !r0 && r1 == err
+//@   assigns internal
+
+//@ func (*PreconditionKeyMustNotExist).Check
+//@   requires idx != nil
+//@   ensures def: r1 == nil ==> (r0 == (err != nil))
+//@   ensures live: err == nil ==> !r0 && r1 == nil
+//@   ensures missing: err != nil && isErr(err, tbtree.ErrKeyNotFound) ==> r0 && r1 == nil
+//@   ensures failed: err != nil && !isErr(err, tbtree.ErrKeyNotFound) ==> !r0 && r1 == err
+//@   assigns internal
+
+// KeyNotModifiedAfterTx: the latest entry of the key INCLUDING deleted and expired ones (GetWithFilters without
+// filters) has Tx() <= TxID; a key the index does not know at all counts as not modified.
+//@ func (*PreconditionKeyNotModifiedAfterTx).Check
+//@   requires idx != nil
+//@   ensures def: err == nil ==> r1 == nil && (r0 == (spec_vrTx(valRef) <= cs.TxID))
+//@   ensures absent: err != nil && isErr(err, ErrKeyNotFound) ==> r0 && r1 == nil
+//@   ensures failed: err != nil && !isErr(err, ErrKeyNotFound) ==> !r0 && r1 == err
+//@   assigns internal
+
+// ---------------------------------------------------------------------------------------------------------
+// C05: validation of the read set at commit time ((*OngoingTx).checkPreconditions)
+//
+// Ghost call counters. The engine has no ghost statements, so "every expectation was re-evaluated" cannot be
+// written with ghost `checked` flags set in the loop bodies. Instead each validation primitive COUNTS ITS CALLS
+// in a ghost object (one struct type per counter: the engine separates objects by type, so a loop that ticks
+// one counter leaves the others framed). The ghost objects exist only under the verif tag, no program code
+// reads or writes them; the `tick` clauses describe the ghost, not the bodies (they are excluded when the
+// callee itself is verified). A counter that grew by exactly n over a loop of n iterations with one call site
+// means: the primitive was called once per element.
+type verifCnt0 struct{ n int } // Precondition.Check calls
+type verifCnt1 struct{ n int } // Precondition.Check calls that returned (true, nil)
+type verifCnt2 struct{ n int } // (*Snapshot).Ts calls
+type verifCnt3 struct {
+	n   int // (*ImmuStore).syncSnapshot calls
+	pfx int // len(prefix) of the latest one
+}
+type verifCnt4 struct{ n int } // re-evaluations on a sync snapshot: (*Snapshot).GetWithFilters, GetWithPrefixAndFilters, NewKeyReader, prefixFingerprint calls
+
+type verifGhost struct {
+	checks *verifCnt0
+	passed *verifCnt1
+	tss    *verifCnt2
+	sync   *verifCnt3
+	evals  *verifCnt4
+}
+
+// The ghost objects are pairwise distinct non-nil heap objects (by these initialisers; assumption of the ghost
+// encoding: the engine does not evaluate package initialisers).
+var verif_g = verifGhost{checks: &verifCnt0{}, passed: &verifCnt1{}, tss: &verifCnt2{}, sync: &verifCnt3{}, evals: &verifCnt4{}}
+
+// spec_ghost: the ghost objects exist (true by the initialiser of verif_g; with distinct types non-nil objects are
+// distinct objects for the engine). Mentioning verif_g in Go code also makes the engine assume the allocation class
+// of the package variable itself (so that a ghost object is not confused with the variable that points to it).
+func spec_ghost() bool {
+	return verif_g.checks != nil && verif_g.passed != nil && verif_g.tss != nil && verif_g.sync != nil && verif_g.evals != nil &&
+		spec_errCells()
+}
+
+// spec_errCells is `true` (sentinel errors are never nil); it mentions the sentinel variables the contracts below
+// compare against, for the same reason (allocation class of the package variables: a ghost object is none of them).
+func spec_errCells() bool {
+	return ErrKeyNotFound != nil && ErrMVCCReadSetLimitExceeded != nil && ErrIndexNotFound != nil && ErrNoMoreEntries != nil &&
+		ErrAlreadyClosed != nil && ErrWriteOnlyTx != nil && ErrTxReadConflict != nil
+}
+
+// Callees of checkPreconditions: frames and result shapes. `assigns internal` is an assumed frame: these
+// functions lock mutexes and touch the caches of the B-tree, nothing an OngoingTx or a read set refers to.
+
+//@ iface Precondition.Validate
+//@   requires st != nil
+//@   assigns nothing
+
+//@ iface Precondition.Check
+//@   requires idx != nil
+//@   ensures errfalse: r1 != nil ==> !r0
+//@   ensures tick: verif_g.checks.n == old(verif_g.checks.n) + 1
+//@   ensures tick_pass: r1 == nil && r0 ==> verif_g.passed.n == old(verif_g.passed.n) + 1
+//@   ensures tick_nopass: !(r1 == nil && r0) ==> verif_g.passed.n == old(verif_g.passed.n)
+//@   assigns internal, verif_g.checks, verif_g.passed
+
+// hasPrefix: true contract of the body (bytes.Equal is not modelled: `empty` is not derivable by the engine).
+//@ func hasPrefix
+//@   pure
+//@   ensures def_len: r0 ==> len(key) >= len(prefix)
+//@   ensures empty: len(prefix) == 0 ==> r0
+
+//@ func (*Snapshot).Ts
+//@   requires s.snap != nil
+//@   ensures tick: verif_g.tss.n == old(verif_g.tss.n) + 1
+//@   assigns internal, verif_g.tss
+
+//@ func (*Snapshot).Close
+//@   requires s.snap != nil
+//@   assigns internal
+
+// found: the interceptor installed by (*OngoingTx).snap is called through a struct field (opaque to the engine):
+// with an interceptor the clause is an assumption about that closure (it returns valRef or a new ongoingValRef).
+//@ func (*Snapshot).GetWithFilters
+//@   requires s.snap != nil && s.st != nil
+//@   ensures found: err == nil ==> valRef != nil && spec_vrKnown(valRef)
+//@   ensures tick: verif_g.evals.n == old(verif_g.evals.n) + 1
+//@   assigns internal, verif_g.evals
+
+//@ func (*Snapshot).GetWithPrefixAndFilters
+//@   requires s.snap != nil && s.st != nil
+//@   ensures found: err == nil ==> valRef != nil && spec_vrKnown(valRef)
+//@   ensures tick: verif_g.evals.n == old(verif_g.evals.n) + 1
+//@   assigns internal, verif_g.evals
+
+//@ func (*Snapshot).NewKeyReader
+//@   requires s.snap != nil
+//@   ensures nonnil: r1 == nil ==> r0 != nil
+//@   ensures tick: verif_g.evals.n == old(verif_g.evals.n) + 1
+//@   assigns internal, verif_g.evals
+
+//@ func (*ImmuStore).syncSnapshot
+//@   ensures nonnil: r1 == nil ==> r0 != nil && r0.snap != nil && r0.st == s && r0.refInterceptor == nil
+//@   ensures isfresh: r1 == nil ==> fresh(r0)
+//@   ensures tick: verif_g.sync.n == old(verif_g.sync.n) + 1
+//@   ensures rec: verif_g.sync.pfx == len(prefix)
+//@   assigns internal, verif_g.sync
+
+// prefixFingerprint opens exactly one key reader on every path (first statement after building the spec): two ticks.
+//@ func prefixFingerprint
+//@   requires snap != nil && snap.snap != nil
+//@   ensures tick: verif_g.evals.n == old(verif_g.evals.n) + 2
+//@   assigns internal, verif_g.evals
+
+// errkey: both implementations (storeKeyReader, ongoingTxKeyReader) return (nil, nil, err) on every error path.
+//@ iface KeyReader.Read
+//@   ensures found: err == nil ==> val != nil
+//@   ensures errkey: err != nil ==> len(key) == 0
+//@   assigns internal
+
+//@ iface KeyReader.ReadBetween
+//@   ensures found: err == nil ==> val != nil
+//@   ensures errkey: err != nil ==> len(key) == 0
+//@   assigns internal
+
+//@ iface KeyReader.Reset
+//@   assigns internal
+
+//@ iface KeyReader.Close
+//@   assigns internal
+
+// checkPreconditions. Type invariants of OngoingTx as preconditions: a transaction that is not write-only has a read
+// set (newOngoingTx); tx.snapshots holds the non-nil results of SnapshotMustIncludeTxIDWithRenewalPeriod (snap());
+// expectedReaders holds results of newExpectedReader.
+// Clauses (C05 "a transaction whose reads are no longer valid at commit time is rejected", C06 "applied iff all
+// preconditions hold", only-if direction):
+//   prec_all_checked / prec_all_passed: nil only if Check was called once per precondition and every call
+//       returned (true, nil);
+//   snaps_all_examined: nil (for a tx with a read set) only if EVERY snapshot of the transaction was examined
+//       (its Ts() compared with the last precommitted id; the ghost counts the Ts() calls), i.e. no snapshot's
+//       expectations were skipped without even looking at the snapshot. FAILS at the `return nil` inside the
+//       snapshot loop (genuine defect, see notes): the loop stops at the first up-to-date snapshot;
+//   evals_all: one re-evaluation per recorded expectation of each of the four kinds (gets, prefix gets, readers,
+//       prefix fingerprints: the latter count twice, prefixFingerprint opens a reader), stated for the case that
+//       exactly one sync snapshot was opened and its prefix is empty (a store without multi-indexing: one index,
+//       every expectation matches its prefix). A kind that is skipped or left early makes the sum fall short;
+//   frame (`assigns`): nothing but the ghost counters is written, whatever the outcome ("leaves no trace").
+//@ func (*OngoingTx).checkPreconditions
+//@   requires ghost: spec_ghost()
+//@   requires st != nil
+//@   requires rs: tx.mode != WriteOnlyTx ==> tx.mvccReadSet != nil
+//@   requires snaps: forall(k, 0, len(tx.snapshots), tx.snapshots[k] != nil && tx.snapshots[k].snap != nil)
+//@   requires readers: tx.mvccReadSet != nil ==> forall(k, 0, len(tx.mvccReadSet.expectedReaders), tx.mvccReadSet.expectedReaders[k] != nil)
+//@   ensures prec_all_checked: r0 == nil ==> verif_g.checks.n == old(verif_g.checks.n) + len(tx.preconditions)
+//@   ensures prec_all_passed: r0 == nil ==> verif_g.passed.n == old(verif_g.passed.n) + len(tx.preconditions)
+//@   ensures snaps_all_examined: r0 == nil && tx.mode != WriteOnlyTx ==> verif_g.tss.n == old(verif_g.tss.n) + len(tx.snapshots)
+//@   ensures evals_all: r0 == nil && tx.mode != WriteOnlyTx && verif_g.sync.n == old(verif_g.sync.n) + 1 && verif_g.sync.pfx == 0
+//@     ==> verif_g.evals.n == old(verif_g.evals.n) + len(tx.mvccReadSet.expectedGets) + len(tx.mvccReadSet.expectedGetsWithPrefix) + len(tx.mvccReadSet.expectedReaders) + 2*len(tx.mvccReadSet.expectedPrefixFPs)
+//@   assigns verif_g.checks, verif_g.passed, verif_g.tss, verif_g.sync, verif_g.evals
+//@   loop 1 invariant checks: verif_g.checks.n == old(verif_g.checks.n) + rangeindex + 1
+//@   loop 1 invariant passed: verif_g.passed.n == old(verif_g.passed.n) + rangeindex + 1
+//@   loop 1 assigns verif_g.checks, verif_g.passed
+//@   loop 2 invariant tss: verif_g.tss.n == old(verif_g.tss.n) + rangeindex + 1
+//@   loop 2 invariant syncs: verif_g.sync.n == old(verif_g.sync.n) + rangeindex + 1
+//@   loop 2 invariant zero: rangeindex == -1 ==> verif_g.evals.n == old(verif_g.evals.n)
+//@   loop 2 invariant one: rangeindex == 0 && verif_g.sync.pfx == 0 ==> verif_g.evals.n == old(verif_g.evals.n) + len(tx.mvccReadSet.expectedGets) + len(tx.mvccReadSet.expectedGetsWithPrefix) + len(tx.mvccReadSet.expectedReaders) + 2*len(tx.mvccReadSet.expectedPrefixFPs)
+//@   loop 2 assigns verif_g.tss, verif_g.sync, verif_g.evals
+//@   loop 3 invariant evals: verif_g.sync.n == old(verif_g.sync.n) + 1 && verif_g.sync.pfx == 0 ==> verif_g.evals.n == old(verif_g.evals.n) + rangeindex + 1
+//@   loop 3 assigns verif_g.evals
+//@   loop 4 invariant evals: verif_g.sync.n == old(verif_g.sync.n) + 1 && verif_g.sync.pfx == 0 ==> verif_g.evals.n == old(verif_g.evals.n) + len(tx.mvccReadSet.expectedGets) + rangeindex + 1
+//@   loop 4 assigns verif_g.evals
+//@   loop 5 invariant evals: verif_g.sync.n == old(verif_g.sync.n) + 1 && verif_g.sync.pfx == 0 ==> verif_g.evals.n == old(verif_g.evals.n) + len(tx.mvccReadSet.expectedGets) + len(tx.mvccReadSet.expectedGetsWithPrefix) + rangeindex + 1
+//@   loop 5 assigns verif_g.evals
+//@   loop 7 invariant carried: len(key) > 0 ==> valRef != nil
+//@   loop 8 invariant evals: verif_g.sync.n == old(verif_g.sync.n) + 1 && verif_g.sync.pfx == 0 ==> verif_g.evals.n == old(verif_g.evals.n) + len(tx.mvccReadSet.expectedGets) + len(tx.mvccReadSet.expectedGetsWithPrefix) + len(tx.mvccReadSet.expectedReaders) + 2*(rangeindex + 1)
+//@   loop 8 assigns verif_g.evals
+
+// ---------------------------------------------------------------------------------------------------------
+// C05: flags and simple observers
+
+//@ func (*mvccReadSet).isEmpty
+//@   ensures def: r0 == (len(mvccReadSet.expectedGets) == 0 && len(mvccReadSet.expectedGetsWithPrefix) == 0
+//@     && len(mvccReadSet.expectedReaders) == 0 && len(mvccReadSet.expectedPrefixFPs) == 0)
+//@   assigns nothing
+
+// hasPreconditions: false only if there is neither an explicit precondition nor a recorded read: precommit may
+// skip checkPreconditions exactly then (with no precondition and an empty read set every loop of
+// checkPreconditions is empty).
+//@ func (*OngoingTx).hasPreconditions
+//@   ensures def: r0 == (len(tx.preconditions) > 0 || (tx.mvccReadSet != nil && !(len(tx.mvccReadSet.expectedGets) == 0
+//@     && len(tx.mvccReadSet.expectedGetsWithPrefix) == 0 && len(tx.mvccReadSet.expectedReaders) == 0
+//@     && len(tx.mvccReadSet.expectedPrefixFPs) == 0)))
+//@   ensures none: !r0 ==> len(tx.preconditions) == 0
+//@   assigns nothing
+
+//@ func (*OngoingTx).mvccReadSetLimitReached
+//@   requires tx.mvccReadSet != nil && tx.st != nil
+//@   ensures def: r0 == (tx.mvccReadSet.readsetSize == tx.st.mvccReadSetLimit)
+//@   assigns nothing
+
+//@ func (*OngoingTx).RequireMVCCOnFollowingTxs
+//@   ensures closed: old(tx.closed) ==> r0 == ErrAlreadyClosed && tx.requireMVCCOnFollowingTxs == old(tx.requireMVCCOnFollowingTxs)
+//@   ensures set: !old(tx.closed) ==> r0 == nil && tx.requireMVCCOnFollowingTxs == requireMVCCOnFollowingTxs
+//@   ensures rest: tx.closed == old(tx.closed) && tx.unsafeMVCC == old(tx.unsafeMVCC) && tx.mode == old(tx.mode) && tx.mvccReadSet == old(tx.mvccReadSet)
+//@   assigns tx
+
+// newOngoingTx establishes the type invariants used as preconditions below: a transaction that is not
+// write-only owns an empty read set; unsafeMVCC and the mode are copied from the options.
+//@ func newOngoingTx
+//@   requires ctx != nil && s != nil
+//@   ensures nonnil: r1 == nil ==> r0 != nil && r0.st == s
+//@   ensures flags: r1 == nil ==> r0.unsafeMVCC == opts.UnsafeMVCC && r0.mode == opts.Mode && !r0.requireMVCCOnFollowingTxs && !r0.closed
+//@   ensures readset: r1 == nil && opts.Mode != WriteOnlyTx ==> r0.mvccReadSet != nil && r0.mvccReadSet.readsetSize == 0
+//@     && len(r0.mvccReadSet.expectedGets) == 0 && len(r0.mvccReadSet.expectedGetsWithPrefix) == 0
+//@     && len(r0.mvccReadSet.expectedReaders) == 0 && len(r0.mvccReadSet.expectedPrefixFPs) == 0
+//@   ensures writeonly: r1 == nil && opts.Mode == WriteOnlyTx ==> r0.mvccReadSet == nil
+//@   ensures empty: r1 == nil ==> len(r0.snapshots) == 0 && len(r0.entries) == 0 && len(r0.preconditions) == 0
+//@   ensures isfresh: r1 == nil ==> fresh(r0)
+
+// ---------------------------------------------------------------------------------------------------------
+// C05: read-set recording
+
+//@ func cp
+//@   ensures nilcase: s == nil ==> r0 == nil
+//@   ensures copied: s != nil ==> eqBytes(r0, s) && fresh(r0)
+//@   assigns nothing
+
+// snap (ASSUMED, not verified: it calls the user-supplied snapshotMustIncludeTxID function value and installs a
+// closure; both are opaque to the engine): returns an existing or a new snapshot, appends a new one to
+// tx.snapshots, touches nothing else of the transaction.
+//@ func (*OngoingTx).snap
+//@   ensures ok: r1 == nil ==> r0 != nil && r0.snap != nil && r0.st == tx.st
+//@   ensures fail: r1 != nil ==> r0 == nil
+//@   ensures keep: tx.st == old(tx.st) && tx.mode == old(tx.mode) && tx.closed == old(tx.closed) && tx.mvccReadSet == old(tx.mvccReadSet)
+//@   assigns internal, tx, tx.snapshots
+
+// GetWithFilters. Clauses of C05 "each point read it performed (other than of its own writes) ..." as far as they
+// concern recording:
+//   found_recorded: a successful read of a pre-existing entry (Tx() > 0) in a read-write tx appends exactly one
+//       expectation carrying a copy of the key and that tx id (or the read fails: the result is not handed out);
+//   own_unrecorded: a read served from the transaction's own writes (Tx() == 0) records nothing;
+//   notfound_recorded: a not-found answer of the snapshot in a read-write tx appends exactly one expectation with
+//       expectedTx == 0 - unless no snapshot could be obtained (index missing: `snap` is nil, nothing recorded:
+//       divergence noted in the notes);
+//   ro_unrecorded: read-only transactions record nothing;
+//   account / atmost1 / bound: readsetSize grows exactly by the number of appended expectations, by at most one
+//       per call, and never beyond mvccReadSetLimit; when the limit is reached nothing is appended (limit);
+//   others: the other three kinds of the read set are untouched.
+//@ func (*OngoingTx).GetWithFilters
+//@   requires ghost: spec_ghost()
+//@   requires tx.st != nil
+//@   requires rs: tx.mode != WriteOnlyTx ==> tx.mvccReadSet != nil
+//@   requires bound0: tx.mvccReadSet != nil ==> 0 <= tx.mvccReadSet.readsetSize && tx.mvccReadSet.readsetSize <= tx.st.mvccReadSetLimit
+//@   ensures found_recorded: r1 == nil && old(tx.mode) == ReadWriteTx && spec_vrTx(r0) > 0 ==> len(tx.mvccReadSet.expectedGets) == old(len(tx.mvccReadSet.expectedGets)) + 1
+//@   ensures found_tx: r1 == nil && old(tx.mode) == ReadWriteTx && spec_vrTx(r0) > 0 ==> tx.mvccReadSet.expectedGets[len(tx.mvccReadSet.expectedGets)-1].expectedTx == spec_vrTx(r0)
+//@   ensures found_key: r1 == nil && old(tx.mode) == ReadWriteTx && spec_vrTx(r0) > 0 ==> eqBytes(tx.mvccReadSet.expectedGets[len(tx.mvccReadSet.expectedGets)-1].key, key)
+//@   ensures own_unrecorded: r1 == nil && spec_vrTx(r0) == 0 ==> len(tx.mvccReadSet.expectedGets) == old(len(tx.mvccReadSet.expectedGets))
+//@   ensures notfound_recorded: snap != nil && !old(tx.closed) && old(tx.mode) == ReadWriteTx && r1 != nil && r1 != ErrMVCCReadSetLimitExceeded && isErr(r1, ErrKeyNotFound) ==> len(tx.mvccReadSet.expectedGets) == old(len(tx.mvccReadSet.expectedGets)) + 1
+//@   ensures notfound_tx: snap != nil && !old(tx.closed) && old(tx.mode) == ReadWriteTx && r1 != nil && r1 != ErrMVCCReadSetLimitExceeded && isErr(r1, ErrKeyNotFound) ==> tx.mvccReadSet.expectedGets[len(tx.mvccReadSet.expectedGets)-1].expectedTx == 0
+//@   ensures notfound_key: snap != nil && !old(tx.closed) && old(tx.mode) == ReadWriteTx && r1 != nil && r1 != ErrMVCCReadSetLimitExceeded && isErr(r1, ErrKeyNotFound) ==> eqBytes(tx.mvccReadSet.expectedGets[len(tx.mvccReadSet.expectedGets)-1].key, key)
+//@   ensures ro_unrecorded: old(tx.mode) == ReadOnlyTx ==>
+//@     len(tx.mvccReadSet.expectedGets) == old(len(tx.mvccReadSet.expectedGets)) && tx.mvccReadSet.readsetSize == old(tx.mvccReadSet.readsetSize)
+//@   ensures account: tx.mvccReadSet != nil ==> len(tx.mvccReadSet.expectedGets) - old(len(tx.mvccReadSet.expectedGets)) == tx.mvccReadSet.readsetSize - old(tx.mvccReadSet.readsetSize)
+//@   ensures atmost1: tx.mvccReadSet != nil ==> tx.mvccReadSet.readsetSize == old(tx.mvccReadSet.readsetSize) || tx.mvccReadSet.readsetSize == old(tx.mvccReadSet.readsetSize) + 1
+//@   ensures bound: tx.mvccReadSet != nil ==> tx.mvccReadSet.readsetSize <= tx.st.mvccReadSetLimit
+//@   ensures limit: tx.mvccReadSet != nil && old(tx.mvccReadSet.readsetSize) == tx.st.mvccReadSetLimit ==> tx.mvccReadSet.readsetSize == old(tx.mvccReadSet.readsetSize)
+//@   ensures others: tx.mvccReadSet != nil ==> len(tx.mvccReadSet.expectedGetsWithPrefix) == old(len(tx.mvccReadSet.expectedGetsWithPrefix))
+//@     && len(tx.mvccReadSet.expectedReaders) == old(len(tx.mvccReadSet.expectedReaders)) && len(tx.mvccReadSet.expectedPrefixFPs) == old(len(tx.mvccReadSet.expectedPrefixFPs))
+//@   ensures keep: tx.st == old(tx.st) && tx.mode == old(tx.mode) && tx.closed == old(tx.closed) && tx.mvccReadSet == old(tx.mvccReadSet)
+//@   assigns internal, tx, tx.snapshots, tx.mvccReadSet, tx.mvccReadSet.expectedGets, verif_g.evals
